@@ -52,6 +52,7 @@ PROPS["C09"] = dict(PROPS["C01"],
 )
 
 PROPS["C07"] = dict(
+    instr_flags=["-lockset", "storage/memory/memory.go,storage/memoization/memoization.go"],
     simulated=True,
     level="exploration",
     instrument=ENGINE_FILES,
@@ -73,6 +74,7 @@ PROPS["C07"] = dict(
 )
 
 PROPS["C19"] = dict(
+    instr_flags=["-lockset", "storage/memory/memory.go,storage/memoization/memoization.go"],
     simulated=True,
     level="exploration",
     instrument=ENGINE_FILES,
